@@ -975,6 +975,19 @@ static Json gen_deflate(Rng &r0, const std::string &focus, int tier)
                 o.push(0).push(rio.chance(1, 2) ? 0 : gen_chunk(rio, im, big)).push((uint32_t) (1 + rio.below(16))).push((int) (1 + rio.below(2))).push(0).push(0);
                 ops.push(o);
         }
+        // page-wise feeding of page-structured data: whole pages per call, flushes at page multiples
+        if ((focus == "C07" || focus == "C14" || focus == "C05" || focus == "C15") && r.chance(1, 10)) {
+                Json d4 = Json::obj();
+                uint64_t pp = r.below(5), P = pages_page_size(pp);
+                d4.set("k", (int) DK_PAGES).set("n", (uint64_t) (P * (2 + r.below(5)))).set("s", r.u64() >> 16).set("p", pp);
+                p.set("data", d4);
+                ops = Json::arr();
+                for (int k = 0; k < 8; k++) {
+                        Json o = Json::arr();
+                        o.push(0).push((uint32_t) (P * (1 + rio.below(3)))).push((uint32_t) (rio.chance(2, 3) ? 600000 : rio.logsize(70000))).push((int) rio.below(3)).push(0).push(0);
+                        ops.push(o);
+                }
+        }
         p.set("ops", ops);
         Json tl = Json::arr();
         uint32_t tin = rio.chance(1, 2) ? 0 : gen_chunk(rio, im, big);
